@@ -81,12 +81,22 @@ class _modules_copyable:
                 raise
 
     def __exit__(self, *args):
+        # The release is spelled out here rather than delegated: when a copy
+        # has failed for want of stack (`RecursionError`) there may be room for
+        # this frame but not for one more call.
         with self.lock:
             refcount = self.refcount - 1
             try:
-                self._release_to(refcount)
+                self.refcount = refcount
+                if refcount == 0 and self.patched_table:
+                    copyreg.dispatch_table.pop(ModuleType, None)
+                    self.patched_table = False
             except BaseException:
-                self._release_to(refcount)  # (idempotent; complete an interrupted release)
+                # (idempotent; complete an interrupted release)
+                self.refcount = refcount
+                if refcount == 0 and self.patched_table:
+                    copyreg.dispatch_table.pop(ModuleType, None)
+                    self.patched_table = False
                 raise
 
     def _release_to(self, refcount):
